@@ -80,6 +80,10 @@ class RecDist(_dist_base()):
         self._estimate(data)
 
 
+def _chain_aff(x, a, b, d):
+    return (a + b * x) + 0.5 * d(x)
+
+
 def est_ref(data):
     data = np.asarray(data, dtype=float)
     return {"m": float(np.median(data)), "w": float(np.max(data) - np.min(data) + 1.0)}
@@ -151,7 +155,8 @@ def gen_cases(rng, n_cases):
                 fd.append({"method": "lsq", "weights": None})
         if rng.integers(0, 5) == 0:
             fd = None
-        yield {"part": "A", "n_dim": n_dim, "cond": cond, "slicers": slicers, "fixed": fixed, "fit_desc": fd,
+        chain = [None] + [[None, None, "m_uses_w", "w_uses_m"][int(rng.integers(0, 4))] for _ in range(1, n_dim)]
+        yield {"part": "A", "n_dim": n_dim, "cond": cond, "slicers": slicers, "fixed": fixed, "fit_desc": fd, "chain": chain,
                "data": [[float(v) for v in r] for r in data], "perm_seed": int(rng.integers(0, 2**31))}
 
 
@@ -165,12 +170,19 @@ def build_model(case):
             d["distribution"] = RecDist(tag=i)
         else:
             kw, pars = {}, {}
+            chain = case.get("chain", [None] * case["n_dim"])[i] if case["fixed"][i] is None else None
             for p in ("m", "w"):
                 if case["fixed"][i] == p:
                     kw["f_" + p] = 2.5
                 else:
                     pars[p] = DependenceFunction(doubles._affine)
                     deps[(i, p)] = pars[p]
+            if chain == "m_uses_w":    # the dependent function's parameter comes BEFORE its conditioner's
+                pars["m"] = DependenceFunction(_chain_aff, d=pars["w"])
+                deps[(i, "m")] = pars["m"]
+            elif chain == "w_uses_m":  # ... and AFTER it
+                pars["w"] = DependenceFunction(_chain_aff, d=pars["m"])
+                deps[(i, "w")] = pars["w"]
             d["distribution"] = RecDist(tag=i, **kw)
             d["conditional_on"] = case["cond"][i]
             d["parameters"] = pars
@@ -320,6 +332,18 @@ def process(ck, case):
             if not (np.array_equal(xs, np.asarray(dist.conditioning_values, dtype=float)) and
                     np.array_equal(ys, np.array([pp[p] for pp in dist.parameters_per_interval]))):
                 bad.append(("dependence_function_fitted_to_reference_estimate_pairs", f"dimension {i} parameter {p}"))
+            elif len(xs) >= 3 and np.ptp(xs) > 0:
+                # ... and actually fitted: its parameters are the least-squares solution on those pairs
+                # (for a chained function: given the final parameters of the function it uses)
+                other = dep.dependent_parameters.get("d")
+                target = ys - (0.5 * np.asarray(other(xs), dtype=float) if other is not None else 0.0)
+                b_ref, a_ref = np.polyfit(xs, target, 1)
+                got_p = np.array(list(dep.parameters.values()), dtype=float)
+                scale = max(1.0, float(np.max(np.abs(target))))
+                if not np.allclose(got_p, [a_ref, b_ref], rtol=1e-4, atol=1e-5 * scale):
+                    bad.append(("dependence_function_is_least_squares_fit_of_pairs",
+                                f"dimension {i} parameter {p} ({'chained' if other is not None else 'plain'}): "
+                                f"parameters {got_p.tolist()} but least squares on the pairs gives {[float(a_ref), float(b_ref)]}"))
     if err is not None and not err_explained and div is None:
         div = f"implementation raised {err} but the model slices every dimension"
     # order invariance
